@@ -188,7 +188,7 @@ func c07RunRF(sc c07Scenario) (res c07Result) {
 		res.Error = err.Error()
 		return
 	}
-	defer rf.Close()
+	defer func() { rf.Close() }()
 	sent := map[int][]byte{}
 	removed := map[int]bool{}
 	inActive := []int{}
@@ -229,6 +229,15 @@ func c07RunRF(sc c07Scenario) (res c07Result) {
 				}
 			case <-time.After(20 * time.Second):
 				res.Blocked = fmt.Sprintf("Write of %d bytes did not return within 20s", len(batch))
+				return
+			}
+		case "reopen":
+			// the channel is closed and opened again on the same path (restart)
+			rf.Sync()
+			rf.Close()
+			rf, err = fschannel.OpenRotateFile(path, 0600, sc.MaxSize)
+			if err != nil {
+				res.Error = "reopen: " + err.Error()
 				return
 			}
 		case "remove", "rename":
@@ -281,12 +290,15 @@ func c07RunFB(sc c07Scenario) (res c07Result) {
 		path = filepath.Join(dir, "blocker", base)
 	}
 	fn, _ := pushers.Get("file")
-	ch, err := fn(func(c pushers.Channel) error {
-		fb := c.(*fschannel.FileBackend)
-		fb.File = path
-		fb.MaxSize = sc.MaxSize
-		return nil
-	})
+	open := func() (pushers.Channel, error) {
+		return fn(func(c pushers.Channel) error {
+			fb := c.(*fschannel.FileBackend)
+			fb.File = path
+			fb.MaxSize = sc.MaxSize
+			return nil
+		})
+	}
+	ch, err := open()
 	if err != nil {
 		res.Error = err.Error()
 		return
@@ -321,6 +333,29 @@ func c07RunFB(sc c07Scenario) (res c07Result) {
 			cur := snapshotDir(dir)
 			checkOverwrite(&res, prev, cur, base)
 			prev = cur
+		case "reopen":
+			// a restart after the flush interval has passed: the channel is closed and a new one
+			// takes over the same file (Close itself does not flush: events still buffered when it
+			// is called are outside what the property promises)
+			time.Sleep(1300 * time.Millisecond)
+			closed := make(chan struct{})
+			go func() {
+				ch.(*fschannel.FileBackend).Close()
+				close(closed)
+			}()
+			select {
+			case <-closed:
+			case <-time.After(10 * time.Second):
+				res.Blocked = "Close of the file channel did not return within 10s"
+				return
+			}
+			cur := snapshotDir(dir)
+			checkOverwrite(&res, prev, cur, base)
+			prev = cur
+			if ch, err = open(); err != nil {
+				res.Error = "reopen: " + err.Error()
+				return
+			}
 		}
 	}
 	time.Sleep(1500 * time.Millisecond)
